@@ -1,54 +1,12 @@
-(** Tie theorems of translator v2: each states that a function REGENERATED from the current Go
-    source ([Gen/Gen2.v], byte-slice code with loops, panics explicit as [GPanic]) equals the
-    hand-written model function the property theorems are about. Only [exact] + [Print Assumptions].
-    Checked by [bin/vtie2]; meant to be listed as obligations of the properties that rely on the
-    model (C17: Secs1/Block.v; C01/C03: Secs2/Encode.v; C03/C06: Hsms/Header.v, Frame.v). *)
+(** Tie theorems of translator v2 (family: hsms header packing, framing, decode entry points, system bytes — C03, C04, C06, C07, C08): each states that a function REGENERATED from the
+    current Go source ([Gen/Gen2.v], byte-slice code with loops, panics explicit as [GPanic]) equals
+    the hand-written model function the property theorems are about. Only [exact] + [Print Assumptions]. *)
 From Coq Require Import String.
 From Coq Require Import ZArith Bool List Lia.
 From GoSecs Require Import Base.GoInt Base.BytesBE Base.GoSlice Gen.Gen2.
-From GoSecs Require Import Secs1.Block Gen.Bridge2Secs1.
-From GoSecs Require Secs2.Encode Gen.Bridge2Secs2.
 From GoSecs Require Hsms.Header Hsms.Frame Hsms.Responder Gen.Bridge2Frames Gen.Bridge2FramesDecode.
 Import ListNotations.
 Open Scope Z_scope.
-
-(** * C17 — secs1/block.go *)
-
-(** [buildHeader]: for every header whose [function] is a [uint8] and whose system bytes are a
-    [[4]byte] (the Go types), every block number and E-bit: no panic, the ten bytes of [build_header]. *)
-Theorem tie_secs1_buildHeader : forall h num last,
-  0 <= h_func h < 256 -> length (h_sys h) = 4%nat ->
-  Gen2.secs1.buildHeader (mh_of h) num last = GOk (build_header h num last).
-Proof. exact bridge_buildHeader. Qed.
-Print Assumptions tie_secs1_buildHeader.
-
-(** [block.appendTo] (length byte, header, body, 16-bit checksum computed by the loop over the
-    bytes just written): for EVERY block and destination, no panic, appends [append_block]. *)
-Theorem tie_secs1_appendTo : forall b dst,
-  Gen2.secs1.block_appendTo (blk_of b) dst = GOk (dst ++ append_block b).
-Proof. exact bridge_appendTo. Qed.
-Print Assumptions tie_secs1_appendTo.
-
-(** [parseBlock]: for every length byte and EVERY slice, no panic, the block / error class of
-    [parse_block]. *)
-Theorem tie_secs1_parseBlock : forall lb rest,
-  0 <= lb < 256 ->
-  Gen2.secs1.parseBlock lb rest = GOk (parse_result_of (parse_block lb rest)).
-Proof. exact bridge_parseBlock. Qed.
-Print Assumptions tie_secs1_parseBlock.
-
-(** * C01 / C03 — secs2/item.go *)
-
-(** [appendHeaderBytesFC]: for every destination, every 6-bit format code and EVERY length field:
-    no panic; a length field above MaxByteSize (2^24-1) is refused with [dst] untouched, otherwise
-    the bytes appended are [header fc n] (format byte + minimal big-endian length bytes). *)
-Theorem tie_secs2_appendHeaderBytesFC : forall dst fc n,
-  0 <= fc < 64 ->
-  Gen2.secs2.appendHeaderBytesFC dst fc n =
-  GOk (if n >? 16777215 then (dst, ErrNew "size limit exceeded"%string)
-       else (dst ++ Secs2.Encode.header fc n, ErrNil)).
-Proof. exact Bridge2Secs2.bridge_appendHeaderBytesFC. Qed.
-Print Assumptions tie_secs2_appendHeaderBytesFC.
 
 (** * C03 / C06 (and the session models of C04/C05/C08) — hsms header packing and framing.
     Statements are those of Gen/Bridge2Frames.v: [cm_of] / [dm_of] read a model message as a non-nil
